@@ -867,13 +867,15 @@ where
     A: ArrayValidExt + ArrayFromDataExt,
 {
     assert_eq!(a.len(), b.len());
+    // the condition holds only where it is TRUE: a FALSE or NULL condition selects `b`
+    let cond = s.to_raw_bitvec().and(s.get_valid_bitmap());
     let it = a
         .raw_iter()
         .zip(b.raw_iter())
-        .zip(s.raw_iter())
-        .map(|((a, b), s)| if *s { a } else { b });
-    let mut valid = s.get_valid_bitmap().and(a.get_valid_bitmap());
-    valid.or(&s.get_valid_bitmap().not_then_and(b.get_valid_bitmap()));
+        .zip(cond.iter().by_vals())
+        .map(|((a, b), s)| if s { a } else { b });
+    let mut valid = cond.and(a.get_valid_bitmap());
+    valid.or(&cond.not_then_and(b.get_valid_bitmap()));
     A::from_data(it, valid)
 }
 
